@@ -169,19 +169,30 @@ def obsOfJson (j : Json) : Except String Spec.RunObs := do
 def obsOfSt (s : St) : Spec.RunObs :=
   { events := s.events.reverse, muts := s.muts.reverse, final := snapOf s.cl, closed := true, late := 0, anomaly := "", unreadable := false }
 
+/-- another list representing the same set: rotated by `k / 2`, reversed when `k` is odd -/
+def permInv (k : Nat) (l : List Id) : List Id :=
+  if l.isEmpty then l else
+  let r := l.rotateLeft ((k / 2) % l.length)
+  if k % 2 = 1 then r.reverse else r
+
 /-- which property's predicate to evaluate: the domain is registered once per property (`sys-C01`, …) so that each
 check reports violations of its own property; `sys` evaluates all of them -/
 def handleSysFor (prop : String) : Handler := fun i o => do
   let pre ← (← asList (← jget i "pre")).mapM manifestOfJson
   let runs ← (← asList (← jget i "runs")).mapM runOfJson
   let c0 : Cluster := pre.foldl (fun c m => c.putPre m) {}
-  -- the model replays the history
-  let (cN, stsRev) := runs.foldl (fun (acc : Cluster × List St) r =>
-      let s := runOne acc.1 r
-      (s.cl, s :: acc.2)) (c0, [])
-  let _ := cN
-  let sts := stsRev.reverse
-  let mj := Json.mkObj [("pre", snapJson (snapOf c0)), ("runs", Json.arr (sts.map runJson).toArray)]
+  -- the model replays the history.  The stored inventory is a SET (the library keeps it as the key set of a ConfigMap's data and
+  -- reads it back in Go map-iteration order, which is unspecified); the model keeps it as a list.  `replay ks` presents the
+  -- stored list to run k rotated/reversed by `ks[k]` — another representative of the same stored set.
+  let replay (ks : List Nat) : List St :=
+    let (_, stsRev, _) := runs.foldl (fun (acc : Cluster × List St × Nat) r =>
+        let c := { acc.1 with inv := acc.1.inv.map (permInv (ks.getD acc.2.2 0)) }
+        let s := runOne c r
+        (s.cl, s :: acc.2.1, acc.2.2 + 1)) (c0, [], 0)
+    stsRev.reverse
+  let jsonOf (sts : List St) : Json := Json.mkObj [("pre", snapJson (snapOf c0)), ("runs", Json.arr (sts.map runJson).toArray)]
+  let sts0 := replay []
+  let mj0 := jsonOf sts0
   let oRuns ← asList (← jget o "runs")
   let oc := Json.mkObj [("pre", canonSnap (← jget o "pre")),
     ("runs", Json.arr (oRuns.map (fun r => canonRun ((r.setObjVal! "closed" (jboolD r "closed" false)).setObjVal! "late" ((jint r "late").toOption.getD 0)))).toArray)]
@@ -191,7 +202,30 @@ def handleSysFor (prop : String) : Handler := fun i o => do
   let ocs := match jopt oc "runs" with
     | some (Json.arr a) => oc.setObjVal! "runs" (Json.arr (a.map strip))
     | _ => oc
-  let agree := mj == ocs
+  -- agreement: the implementation's behaviour is the model's behaviour for SOME order of each run's stored inventory set
+  -- (the order decides which of several blocking dependents a delete filter meets first, hence the reported reason)
+  let nInv := (sts0.map (fun s => (s.cl.inv.getD []).length)).foldl max 0
+  let oRunsS : List Json := match jopt ocs "runs" with | some (Json.arr a) => a.toList | _ => []
+  -- first run on which a replay differs from the implementation
+  let firstDiff (sts : List St) : Option Nat :=
+    (List.range (max sts.length oRunsS.length)).find? fun k => (sts[k]?.map runJson) != oRunsS[k]?
+  -- run by run: keep the orders found so far, try the other orders for the first run that differs (≤ runs × 2·|inventory| replays)
+  let rec search (fuel : Nat) (ks : List Nat) : Option (List Nat) :=
+    match fuel with
+    | 0 => none
+    | fuel + 1 =>
+      match firstDiff (replay ks) with
+      | none => some ks
+      | some r =>
+        let pad := ks ++ List.replicate (r + 1 - ks.length) 0
+        match (List.range (2 * nInv)).find? (fun k => k ≠ pad.getD r 0 &&
+                match firstDiff (replay (pad.set r k)) with | none => true | some r' => r' > r) with
+        | some k => search fuel (pad.set r k)
+        | none => none
+  let hit := if mj0 == ocs then some [] else search (runs.length + 1) []
+  let sts := match hit with | some ks => replay ks | none => sts0
+  let mj := jsonOf sts
+  let agree := hit.isSome
   -- property predicates on the implementation's behaviour
   let obsI ← oRuns.mapM obsOfJson
   let snap0 ← snapOfJson (← jget o "pre")
@@ -199,7 +233,7 @@ def handleSysFor (prop : String) : Handler := fun i o => do
   let (spec, why) := Spec.checkHistory prop hist obsI
   let (specM, whyM) := Spec.checkHistory prop hist (sts.map obsOfSt)
   let region := if spec then none else Spec.regionOf why
-  let tags := Spec.tagsOf hist obsI
+  let tags := Spec.tagsOf hist obsI ++ (match hit with | some (_ :: _) => ["inv-order:non-default"] | _ => [])
   return { model := mj, agree := agree, spec := spec, specModel := specM, nontrivial := runs.length ≥ 1,
            note := why ++ (if specM then "" else " | model: " ++ whyM), tags := tags, region := region }
 
